@@ -271,6 +271,23 @@ func (r *Run) checkLoadable() {
 		return
 	}
 	r.probe("loadable_checked")
+	nAuth := 0
+	for _, sec := range c.Sections {
+		if sec.Kind == "backend" && strings.HasPrefix(sec.Name, "_auth_1") {
+			nAuth++
+		}
+		if sec.Kind == "userlist" {
+			r.probe("cfg_with_userlist")
+		}
+		if sec.Kind == "frontend" && strings.HasPrefix(sec.Name, "_front_tcp_") {
+			r.probe("cfg_with_tcp_frontend")
+		}
+	}
+	if nAuth >= 2 {
+		r.probe("cfg_with_2_auth_proxy_binds")
+	} else if nAuth == 1 {
+		r.probe("cfg_with_1_auth_proxy_bind")
+	}
 	for _, f := range c.Fatal {
 		r.violate(&Violation{Property: "C07", Oracle: "loadable", Class: "fatal:" + problemClass(f), Witness: f})
 		return
